@@ -34,7 +34,9 @@ SelN(c) == "sel:" \o c
 \* edges into one flattened definition
 InEdges(D, d) ==
   IF d.kind = "choice"
-    THEN {<<a, d.name>> : a \in ExprsRefs(d.prompts) \cup Refs(d.dep)}
+    \* (the `depends on` of a choice definition reaches its prompt and its defaults, where Flatten has put it; a
+    \* definition that has neither reads nothing through it: members inherit the choice, not the definition's dep)
+    THEN {<<a, d.name>> : a \in ExprsRefs(d.prompts)}
          \cup {<<a, SelN(d.name)>> : a \in SeqRefs(d.defaults, {"c"}) \cup {d.name}}
   ELSE IF d.ch # ""
     THEN {<<a, VisN(d.name)>> : a \in ExprsRefs(d.prompts) \cup Refs(d.dep)}
